@@ -17,6 +17,7 @@ def run(ctx):
     fails = []
     res, f = live.walk(ctx, gp, "listen", 2 if q else 3, 0 if q else 2000, "model")
     fails += f
+    fails += live.closure(ctx, gp)      # driver level: streams of every length over the alphabet
     ctx.count(res["sequences"])
     recs = live.gen_sessions(ctx, 1500 if q else 15000, 0, ctx.seed + 1000, "model",
                              only=lambda r: "wire" in r["feat"] and "garbage_prefix" not in r["feat"])
